@@ -54,22 +54,16 @@ func (f *Progx) Call(s *slip.Scope, args slip.List, depth int) slip.Object {
 	ns.TagBody = true
 	d2 := depth + 1
 	processBinding(ns, ns, args[0], d2)
-	for i := 1; i < len(args); i++ {
-		switch tr := slip.EvalArg(ns, args, i, d2).(type) {
-		case *slip.ReturnResult:
-			if tr.Tag == nil {
-				return tr.Result
-			}
-			// return-from made sure a block with that name encloses
-			// this form.
-			return tr
-		case *GoTo:
-			for i++; i < len(args); i++ {
-				if args[i] == tr.Tag {
-					break
-				}
-			}
+	switch tr := EvalTagBody(ns, args, 1, d2).(type) {
+	case *slip.ReturnResult:
+		if tr.Tag == nil {
+			return tr.Result
 		}
+		// return-from made sure a block with that name encloses this form.
+		return tr
+	case *GoTo:
+		// The tag is in an enclosing tagbody.
+		return tr
 	}
 	return nil
 }
